@@ -31,8 +31,8 @@ EXPLANATION = (
     "(setattr/exec/__dict__) that the who-may-write rules of all properties rely on; R4.1 also lists memoising decorators "
     "(lru_cache / cache keep objects for the whole process; cached_property is per instance); R4.6 = C01's R1.4 and C03's R3.4 "
     "(reset re-seeds when a seed is given - `is not None`, not truthiness - and rebuilds the game exactly once on every path) "
-    "R4.7 the numeric settings this property depends on are never tested by truthiness (`x or default`, `if x:`), because 0 is a legal value for them. "
-    "applied here. NOT decided: equality of "
+    "applied here. R4.7 the numeric settings this property depends on are never tested by truthiness (`x or default`, `if x:`) - 0 is a legal value for them. "
+    "NOT decided: equality of "
     "trajectories after a dirty history (behavioural) and leaks through third-party global state."
 )
 TECHNIQUE = "static: who-may-write inventory of class-level/singleton state, output-switch guard analysis, mutable-default analysis, dynamic-feature census"
